@@ -47,6 +47,7 @@ var phases = []string{
 	"stop-hook-swap",     // initialiser paused right before publishing its socket, while Stop runs
 	"init-reject",        // router rejects: no session, nothing leaked
 	"init-upstream-refused", // upstream proxy (SOCKS5 association) refused
+	"evict-unsendable",      // a session none of whose packets can be sent out (unresolvable name) is still evicted when idle
 }
 
 type world struct {
@@ -420,6 +421,34 @@ func lifecycleCase(e *core.Env, ci int, r *core.RNG, s *sched) {
 		if !hookReached {
 			rec.Inconclusive("hook-not-reached:" + hook)
 		}
+	case "evict-unsendable":
+		// every datagram of these sessions fails to pack for the outbound client (the name does not resolve), so nothing is
+		// ever sent upstream; the sessions must nevertheless be torn down after the NAT timeout
+		if s.C != "direct" {
+			// the failing pack must happen in THIS relay: only meaningful with a direct upstream
+			finish()
+			return
+		}
+		if !newPeers(min(s.NSess, 4)) {
+			return
+		}
+		bad := conn.MustAddrFromDomainPort(fmt.Sprintf("nxdomain-%d.test", ci), uint16(w.tport))
+		for _, p := range peers {
+			p.Send(bad, []byte("unsendable"))
+		}
+		if !w.inst.WaitLogs("Failed to pack packet", len(peers), 20*time.Second) {
+			rec.Inconclusive("evict-unsendable: pack failure not observed")
+			finish()
+			return
+		}
+		started := w.inst.CountLogs("relay started")
+		vtime.Advance(nat + time.Second)
+		if !w.inst.WaitLogs("Finished relay serverConn <- natConn", started, 30*time.Second) {
+			violate("not_evicted", "%d sessions whose packets could never be sent out were started, only %d were torn down %v after their last client packet", started, w.inst.CountLogs("Finished relay serverConn <- natConn"), nat+time.Second)
+			return
+		}
+		rec.Count("evictions_observed", int64(started))
+		finish()
 	case "init-reject", "init-upstream-refused":
 		if !newPeers(min(s.NSess, 4)) {
 			return
